@@ -12,6 +12,7 @@ package ratelimit
 // One event per decision; TLC (TraceRateLimit.tla) decides.
 
 import (
+	"github.com/AdguardTeam/AdGuardDNS/internal/dnsserver"
 	"context"
 	"math/rand"
 	"net/netip"
@@ -185,6 +186,10 @@ func c09RunBackoff(t *testing.T, out *vhOut, beh int, par c09Par, steps []c09Ste
 		if kind == "any" {
 			qt = dns.TypeANY
 		}
+		// the server stamps every request with its time of ARRIVAL; an event counts at the time it is counted
+		// (the response of a slow handler long after the request arrived)
+		ctx = dnsserver.ContextWithRequestInfo(context.Background(), &dnsserver.RequestInfo{
+			StartTime: VerifNow().Add(-time.Duration(rng.Intn(4)) * c09Tick)})
 		drop, allowlisted, err := bo.IsRateLimited(ctx, c09Msg(qt, 0), ip)
 		if err != nil {
 			t.Fatal(err)
